@@ -601,6 +601,86 @@ mutant("im2-table-read-before-the-push", [], quiet=["C06", "C05", "C07"], edits=
 			cpu.PC = target
 			cpu.IFF1 = false""")], note="differs from push-then-read only when the pushed word lands on the table entry itself")
 
+# ---- sixth informed review: legitimate variants that alarmed (must stay quiet now) -------------------
+mutant("ei-delay-by-deferred-iff1", [], quiet=["C06", "C05", "C07", "C08", "C10"], edits=[
+    ("z80.go", """	IFF1 bool
+	IFF2 bool
+	IM   int
+}""", """	IFF1 bool
+	IFF2 bool
+	IM   int
+
+	// EIPending: EI has been executed, IFF1 follows when the next instruction has completed.
+	EIPending bool
+}"""),
+    ("op_ctrl.go", """func oopEI(cpu *CPU) {
+	cpu.IFF1 = true
+	cpu.IFF2 = true
+}""", """func oopEI(cpu *CPU) {
+	cpu.IFF2 = true
+	cpu.EIPending = true
+}"""),
+    ("op_ctrl.go", """func oopDI(cpu *CPU) {
+	cpu.IFF1 = false
+	cpu.IFF2 = false
+}""", """func oopDI(cpu *CPU) {
+	cpu.IFF1 = false
+	cpu.IFF2 = false
+	cpu.EIPending = false
+}"""),
+    ("cpu.go", """	// execute an op-code.
+	cpu.executeOne()
+}""", """	// execute an op-code.
+	due := cpu.EIPending
+	cpu.executeOne()
+	if due && cpu.EIPending {
+		cpu.IFF1 = true
+		cpu.EIPending = false
+	}
+}"""),
+    ("cpu.go", """	if cpu.Interrupt != nil && cpu.processInterrupt() {
+		cpu.Interrupt = nil
+		return
+	}""", """	if cpu.Interrupt != nil && cpu.processInterrupt() {
+		cpu.Interrupt = nil
+		cpu.EIPending = false
+		return
+	}"""),
+    ("cpu.go", """		cpu.PC = 0x0066
+		cpu.IFF2 = cpu.IFF1
+		cpu.IFF1 = false
+		return true""", """		cpu.PC = 0x0066
+		cpu.IFF2 = cpu.IFF1 || cpu.EIPending
+		cpu.IFF1 = false
+		cpu.EIPending = false
+		return true"""),
+], note="the usual way to implement the EI delay: IFF2 at once, IFF1 when the instruction after EI has completed (state exported in States)")
+mutant("tinycpm-warns-once-per-port", [], quiet=["C18"], edits=[("internal/tinycpm/tinycpm.go", """func (io *IO) In(addr uint8) uint8 {
+	io.warnl.Printf("not impl. I/O In addr=0x%02x", addr)
+	return 0
+}""", """var warnedIn, warnedOut [256]bool
+
+func (io *IO) In(addr uint8) uint8 {
+	if !io.seenIn[addr] {
+		io.seenIn[addr] = true
+		io.warnl.Printf("not impl. I/O In addr=0x%02x", addr)
+	}
+	return 0
+}"""), ("internal/tinycpm/tinycpm.go", """	warnl  *log.Logger
+}""", """	warnl  *log.Logger
+
+	seenIn, seenOut [256]bool
+}"""), ("internal/tinycpm/tinycpm.go", """	if addr != 0 {
+		io.warnl.Printf("not impl. I/O Out addr=0x%02x value=0x%02x", addr, value)
+		return
+	}""", """	if addr != 0 {
+		if !io.seenOut[addr] {
+			io.seenOut[addr] = true
+			io.warnl.Printf("not impl. I/O Out addr=0x%02x value=0x%02x", addr, value)
+		}
+		return
+	}""")], note="a polling program does not flood the log: one warning per (direction, port) and machine")
+
 def run(cmd, **kw):
     return subprocess.run(cmd, stdout=subprocess.PIPE, stderr=subprocess.STDOUT, text=True, **kw)
 
